@@ -76,7 +76,27 @@ Definition compass_expect (f : frame_in) (r : iset) : option (Q * Q) :=
   | _ => None
   end.
 
-Fixpoint judge_steps (routes : list (Z * Z * list (list iset))) (sc : scenario) (seen_idle : bool) (steps : list step) (outs : list out) : list (Z * bool) :=
+(* A binding starts out ignored while its input is held (ContextInstance::bind; Model/Action.v, ib_ignored) and stays so
+   until the input is seen released.  The compass is therefore only expected of a preset when every field that is down
+   in this frame has been released in one of the frames [hist] evaluated since the last operation (an SOp step, or a
+   frame that carries operations: the data polled after such a frame may belong to a rebuilt instance). *)
+Definition field_ready (hist : list frame_in) (f : frame_in) (i : iset) : bool :=
+  match key_down f i with
+  | Some q => negb (qnz q) || existsb (fun g => match key_down g i with Some q' => negb (qnz q') | None => false end) hist
+  | None => true
+  end.
+Definition compass_ready (hist : list frame_in) (f : frame_in) (r : iset) : bool :=
+  match f_ops f with
+  | [] => match r with
+          | RCardinal n e s w => field_ready hist f n && field_ready hist f e && field_ready hist f s && field_ready hist f w
+          | RBidirectional p n => field_ready hist f p && field_ready hist f n
+          | _ => true
+          end
+  | _ => false
+  end.
+
+Fixpoint judge_steps (routes : list (Z * Z * list (list iset))) (sc : scenario) (seen_idle : bool) (hist : list frame_in)
+         (steps : list step) (outs : list out) : list (Z * bool) :=
   match steps, outs with
   | SFrame f :: steps', o :: outs' =>
       (8, negb (x_panicked o)) ::
@@ -85,7 +105,10 @@ Fixpoint judge_steps (routes : list (Z * Z * list (list iset))) (sc : scenario) 
            let '(c, e, per_action) := x in
            flat_map (fun ra =>
              match fst ra with
-             | [r] => match (match aid_accum (a_id (snd ra)) with Cumulative => compass_expect f r | MaxAbs => None end),
+             | [r] => match (match aid_accum (a_id (snd ra)) with
+                             | Cumulative => if compass_ready hist f r then compass_expect f r else None
+                             | MaxAbs => None
+                             end),
                             snap_of_entry c e (a_id (snd ra)) (x_snaps o) with
                       | Some (ex, ey), Some s =>
                           [(2, veqb (sn_value s) (convert (aid_dim (a_id (snd ra))) (V2 ex ey)))]
@@ -93,15 +116,15 @@ Fixpoint judge_steps (routes : list (Z * Z * list (list iset))) (sc : scenario) 
                       end
              | _ => []
              end) (combine per_action (i_actions (cfg_lookup sc c e)))) routes
-       else []) ++ judge_steps routes sc true steps' outs'
-  | SOp _ :: steps', o :: outs' => (8, negb (x_panicked o)) :: judge_steps routes sc false steps' outs'
+       else []) ++ judge_steps routes sc true (match f_ops f with [] => f :: hist | _ => [] end) steps' outs'
+  | SOp _ :: steps', o :: outs' => (8, negb (x_panicked o)) :: judge_steps routes sc false [] steps' outs'
   | [], [] => []
   | _, _ => [(9, false)]
   end.
 
 Definition ok (p : rcase * trace_t) : Z :=
   match p with
-  | (routed routes sc, trace outs) => first_fail ((1, routes_denote routes sc) :: judge_steps routes sc false (s_steps sc) outs)
+  | (routed routes sc, trace outs) => first_fail ((1, routes_denote routes sc) :: judge_steps routes sc false [] (s_steps sc) outs)
   | (_, panic) => 10
   end.
 Definition bad_agree := bad agree.
